@@ -90,6 +90,29 @@ func init() {
 				{File: tf, Old: "\troot := strings.TrimSuffix(realDest, string(filepath.Separator))\n\tif realPath != realDest && !strings.HasPrefix(realPath, root+string(filepath.Separator)) {\n", New: "\tif realPath != realDest && !strings.HasPrefix(realPath, dirPrefix(realDest)) {\n"},
 				{File: tf, Old: "// CalculateDirectorySize calculates", New: "func dirPrefix(d string) string {\n\treturn strings.TrimSuffix(d, string(filepath.Separator)) + string(filepath.Separator)\n}\n\n// CalculateDirectorySize calculates"},
 			}},
+			// ---- round 3: refactoring classes that used to alarm
+			{Name: "rewrite: link entries recognised by a helper taking the header", Edits: []Edit{
+				{File: tf, Old: "isLink := header.Typeflag == tar.TypeSymlink || header.Typeflag == tar.TypeLink", New: "isLink := isLinkEntry(header)"},
+				{File: tf, Old: "// CalculateDirectorySize calculates", New: "func isLinkEntry(h *tar.Header) bool {\n\tswitch h.Typeflag {\n\tcase tar.TypeSymlink, tar.TypeLink:\n\t\treturn true\n\t}\n\treturn false\n}\n\n// CalculateDirectorySize calculates"},
+			}},
+			{Name: "rewrite: containment helper picks the resolver through a function value", Edits: []Edit{
+				{File: tf, Old: "\tif followFinal {\n\t\trealPath, err = resolvePath(path)\n\t} else {\n\t\trealPath, err = resolveParent(path)\n\t}\n", New: "\tresolve := resolveParent\n\tif followFinal {\n\t\tresolve = resolvePath\n\t}\n\trealPath, err = resolve(path)\n"},
+			}},
+			{Name: "rewrite: sanitising and containment merged into a per-entry helper that switches on the type", Edits: []Edit{
+				{File: tf, Old: "\t\tisLink := header.Typeflag == tar.TypeSymlink || header.Typeflag == tar.TypeLink\n\t\ttargetPath, err = containedPath(realDest, targetPath, !isLink)\n", New: "\t\ttargetPath, err = placeEntry(realDest, targetPath, header)\n"},
+				{File: tf, Old: "// CalculateDirectorySize calculates", New: "func placeEntry(realDest, lexical string, h *tar.Header) (string, error) {\n\tswitch h.Typeflag {\n\tcase tar.TypeSymlink, tar.TypeLink:\n\t\treturn containedPath(realDest, lexical, false)\n\tdefault:\n\t\treturn containedPath(realDest, lexical, true)\n\t}\n}\n\n// CalculateDirectorySize calculates"},
+			}},
+			{Name: "per-entry helper resolves every entry without its last component", ExpectRule: "C27.R3", ExpectKey: "os.OpenFile", Edits: []Edit{
+				{File: tf, Old: "\t\tisLink := header.Typeflag == tar.TypeSymlink || header.Typeflag == tar.TypeLink\n\t\ttargetPath, err = containedPath(realDest, targetPath, !isLink)\n", New: "\t\ttargetPath, err = placeEntry(realDest, targetPath, header)\n"},
+				{File: tf, Old: "// CalculateDirectorySize calculates", New: "func placeEntry(realDest, lexical string, h *tar.Header) (string, error) {\n\tswitch h.Typeflag {\n\tcase tar.TypeSymlink, tar.TypeLink, tar.TypeReg:\n\t\treturn containedPath(realDest, lexical, false)\n\tdefault:\n\t\treturn containedPath(realDest, lexical, true)\n\t}\n}\n\n// CalculateDirectorySize calculates"},
+			}},
+			{Name: "rewrite: the link is created by a closure called synchronously", Edits: []Edit{
+				{File: tf, Old: "\t\t\tif err := os.Symlink(header.Linkname, targetPath); err != nil {\n", New: "\t\t\tcreate := func() error { return os.Symlink(header.Linkname, targetPath) }\n\t\t\tif err := create(); err != nil {\n"},
+			}},
+			{Name: "link created by a closure, target check dropped", ExpectRule: "C27.R2", ExpectKey: "os.Symlink", Edits: []Edit{
+				{File: tf, Old: "\t\t\tif err := os.Symlink(header.Linkname, targetPath); err != nil {\n", New: "\t\t\tcreate := func() error { return os.Symlink(header.Linkname, targetPath) }\n\t\t\tif err := create(); err != nil {\n"},
+				{File: tf, Old: "\t\t\tlinkDir, _ := filepath.Split(targetPath)\n\t\t\tif _, err := containedPath(realDest, linkDir+filepath.FromSlash(header.Linkname), true); err != nil {\n\t\t\t\treturn fmt.Errorf(\"symlink target escapes destination: %s -> %s\", targetPath, header.Linkname)\n\t\t\t}\n", New: ""},
+			}},
 			{Name: "rewrite: containment test written with filepath.Rel", Edits: []Edit{
 				{File: tf, Old: "\troot := strings.TrimSuffix(realDest, string(filepath.Separator))\n\tif realPath != realDest && !strings.HasPrefix(realPath, root+string(filepath.Separator)) {\n", New: "\trel, rerr := filepath.Rel(realDest, realPath)\n\tif rerr != nil || rel == \"..\" || strings.HasPrefix(rel, \"..\"+string(filepath.Separator)) {\n"},
 			}},
@@ -250,8 +273,52 @@ func (cx *c27Ctx) checkContainmentPredicate(r *kit.Report, fn *ssa.Function) {
 	r.Count("containment_string_comparisons", len(sites))
 }
 
-// consumerSites: the calls in f that hand a value derived from v to a function from which
-// target is reachable (the path leaves f there on its way to the sink).
+// factsFor returns the environments (entry-type facts) under which a barrier value v, found
+// after descending through chain, is consumed: the facts hold in the function where the
+// descent started (the sink's own function, or the function from which the path is handed
+// to the sink's function - then the facts at that hand-over call).
+func (cx *c27Ctx) factsFor(s c26SinkSite, sinkEnvs []c26Env, v ssa.Value, chain []*ssa.Call) []c26Env {
+	var f0 *ssa.Function
+	var through ssa.Value = v
+	if len(chain) > 0 {
+		f0 = chain[0].Parent()
+		through = chain[0]
+	} else if in, ok := v.(ssa.Instruction); ok {
+		f0 = in.Parent()
+	}
+	if f0 == nil {
+		return []c26Env{{}}
+	}
+	if f0 == s.fn {
+		return sinkEnvs
+	}
+	// a closure of f0: the facts at its creation
+	for fn := s.fn; fn != nil && fn.Parent() != nil; fn = fn.Parent() {
+		if fn.Parent() == f0 {
+			var envs []c26Env
+			for _, in := range g9Instrs(f0) {
+				if mc, ok := in.(*ssa.MakeClosure); ok && mc.Fn == ssa.Value(fn) {
+					envs = append(envs, c26EnvsAt(mc)...)
+				}
+			}
+			if len(envs) > 0 {
+				return envs
+			}
+		}
+	}
+	if sites := cx.consumerSites(f0, through, s.fn); len(sites) > 0 {
+		var envs []c26Env
+		for _, k := range sites {
+			envs = append(envs, c26EnvsAt(k)...)
+		}
+		return envs
+	}
+	return []c26Env{{}}
+}
+
+// consumerSites: the calls in f that hand a value derived from v (a value, or any result of
+// the call v) to a function from which target is reachable (the path leaves f there on its
+// way to the sink).
 func (cx *c27Ctx) consumerSites(f *ssa.Function, v ssa.Value, target *ssa.Function) []ssa.Instruction {
 	var out []ssa.Instruction
 	for _, k := range kit.Calls(f) {
@@ -267,7 +334,17 @@ func (cx *c27Ctx) consumerSites(f *ssa.Function, v ssa.Value, target *ssa.Functi
 			continue
 		}
 		for _, a := range k.Common().Args {
-			if c26IsStringType(a.Type()) && (&kit.PathFlow{Prog: cx.p, Within: f}).Walk(a).Reached(v) {
+			if !c26IsStringType(a.Type()) {
+				continue
+			}
+			res := (&kit.PathFlow{Prog: cx.p, Within: f}).Walk(a)
+			hit := res.Reached(v)
+			for x := range res.Visited {
+				if c := c26ResultCall(x); c != nil && ssa.Value(c) == v {
+					hit = true
+				}
+			}
+			if hit {
 				out = append(out, k)
 				break
 			}
@@ -337,32 +414,27 @@ func runC27(p *kit.Program, r *kit.Report) {
 			sinkEnvs := c26EnvsAt(s.call)
 			q := &kit.PathFlow{Prog: p, FollowBodies: true, FollowParams: true, Source: cx.isTaintLoad, Barrier: cx.isBarrier,
 				Mark: c26StripsLast,
-				OnBarrier: func(v ssa.Value, stripped bool, argOf func(*ssa.Parameter) ssa.Value) {
+				OnBarrierChain: func(v ssa.Value, stripped bool, chain []*ssa.Call) {
 					if stripped {
 						return
 					}
-					// the entry-type conditions that hold where the contained path is consumed
-					// in the function that produced it: at the sink itself, or at the call
-					// through which the path travels to the sink's function
-					envs := []c26Env{{}}
-					if in, ok := v.(ssa.Instruction); ok {
-						if in.Parent() == s.fn {
-							envs = sinkEnvs
-						} else if sites := cx.consumerSites(in.Parent(), v, s.fn); len(sites) > 0 {
-							envs = nil
-							for _, k := range sites {
-								envs = append(envs, c26EnvsAt(k)...)
-							}
-						}
-					}
-					for _, env := range envs {
-						env := env
-						evalArg := func(a ssa.Value) (bool, bool) { return c26EvalBool(a, env, argOf, 0) }
-						if cx.barrierParentOnly(v, evalArg) {
+					for _, env := range cx.factsFor(s, sinkEnvs, v, chain) {
+						if cx.barrierPartial(v, c26ChainEval(env, chain)) {
 							partial = append(partial, v)
 							break
 						}
 					}
+				},
+				ReturnFilter: func(chain []*ssa.Call, ret *ssa.Return) bool {
+					if len(chain) == 0 {
+						return true
+					}
+					for _, env := range cx.factsFor(s, sinkEnvs, nil, chain) {
+						if c26ChainEval(env, chain).blockFeasible(ret.Block(), 0) {
+							return true
+						}
+					}
+					return false
 				}}
 			res := q.Walk(args[ai])
 			rule := "C27.R1"
@@ -427,37 +499,60 @@ func (cx *c27Ctx) checkSymlinkText(r *kit.Report, s c26SinkSite, linkname *types
 	p := cx.p
 	fn := s.fn
 	text := s.call.Common().Args[0]
-	isLinkname := func(v ssa.Value) bool {
-		f, _ := kit.LoadedField(v)
-		return f == linkname
-	}
-	tw := (&kit.PathFlow{Prog: p, Within: fn, Source: cx.isTaintLoad}).Walk(text)
+	tw := (&kit.PathFlow{Prog: p, FollowBodies: true, FollowParams: true, Source: cx.isTaintLoad}).Walk(text)
 	if len(tw.Sources) == 0 {
-		return // link text is not taken from the archive in this function
+		return // link text is not taken from the archive
 	}
-	var sinkInstr ssa.Instruction = s.call
+	// the parameters of fn the text comes from (a helper receiving the text)
+	origin := map[ssa.Value]bool{}
+	for _, prm := range (&kit.PathFlow{Prog: p, Within: fn}).Walk(text).Params {
+		origin[prm] = true
+	}
 	key := fmt.Sprintf("%s os.Symlink #%d link text", kit.FuncName(fn), s.ord)
-	found := false
+	found := cx.textChecked(fn, s.call, origin, linkname, 0)
+	r.Decide(found, "C27.R2", key, p.Pos(s.call.Pos()),
+		"the archive's link text is passed through a containment resolver whose error is checked before the link is created",
+		"the link text taken from the archive is only judged lexically (or not at all) before os.Symlink: a target such as up/.. that passes through an earlier link really points outside the destination")
+}
+
+// textChecked: on the way to anchor (an instruction of fn: the os.Symlink call, the creation
+// of the closure that contains it, or the call of the helper that contains it) the archive's
+// link text was handed - directly or one helper deep - to a containment resolver whose error
+// is known to be nil at anchor. When fn itself does not do that, every place fn is entered
+// from (closure creation sites, static call sites) must.
+func (cx *c27Ctx) textChecked(fn *ssa.Function, anchor ssa.Instruction, origin map[ssa.Value]bool, linkname *types.Var, depth int) bool {
+	p := cx.p
+	carriesText := func(a ssa.Value) bool {
+		res := (&kit.PathFlow{Prog: p, Within: fn, Source: func(v ssa.Value) bool {
+			f, _ := kit.LoadedField(v)
+			return f == linkname
+		}}).Walk(a)
+		if len(res.Sources) > 0 {
+			return true
+		}
+		for _, prm := range res.Params {
+			if origin[prm] {
+				return true
+			}
+		}
+		return false
+	}
 	for _, c := range kit.Calls(fn) {
 		k, ok := c.(*ssa.Call)
-		if !ok || k == s.call {
+		if !ok || ssa.Instruction(k) == anchor {
 			continue
 		}
 		cal := kit.CalleeOf(k)
-		if cal.Static == nil || !kit.IsRepoPkg(cal.Pkg) {
-			continue
-		}
-		if !kit.Precedes(k, sinkInstr) {
+		if cal.Static == nil || !kit.IsRepoPkg(cal.Pkg) || !kit.Precedes(k, anchor) {
 			continue
 		}
 		errv := kit.ErrResultOf(k)
-		if errv == nil || !kit.ErrNilOn(kit.GuardsOf(sinkInstr), errv) {
+		if errv == nil || !kit.ErrNilOn(kit.GuardsOf(anchor), errv) {
 			continue
 		}
-		// arguments of k that carry the archive's link text
 		var idx []int
 		for i, a := range k.Call.Args {
-			if len((&kit.PathFlow{Prog: p, Within: fn, Source: isLinkname}).Walk(a).Sources) > 0 {
+			if carriesText(a) {
 				idx = append(idx, i)
 			}
 		}
@@ -465,8 +560,7 @@ func (cx *c27Ctx) checkSymlinkText(r *kit.Report, s c26SinkSite, linkname *types
 			continue
 		}
 		if cx.isContainmentResolver(cal.Static) {
-			found = true
-			break
+			return true
 		}
 		// one level: a helper that hands its link-text parameter to a containment resolver
 		for _, c2 := range kit.Calls(cal.Static) {
@@ -475,28 +569,41 @@ func (cx *c27Ctx) checkSymlinkText(r *kit.Report, s c26SinkSite, linkname *types
 				continue
 			}
 			cal2 := kit.CalleeOf(k2)
-			if cal2.Static == nil || !cx.isContainmentResolver(cal2.Static) {
-				continue
-			}
-			if e2 := kit.ErrResultOf(k2); e2 == nil {
+			if cal2.Static == nil || !cx.isContainmentResolver(cal2.Static) || kit.ErrResultOf(k2) == nil {
 				continue
 			}
 			for _, a2 := range k2.Call.Args {
-				in := (&kit.PathFlow{Prog: p, Within: cal.Static}).Walk(a2)
-				for _, prm := range in.Params {
+				for _, prm := range (&kit.PathFlow{Prog: p, Within: cal.Static}).Walk(a2).Params {
 					for _, i := range idx {
 						if i < len(cal.Static.Params) && cal.Static.Params[i] == prm {
-							found = true
+							return true
 						}
 					}
 				}
 			}
 		}
-		if found {
-			break
+	}
+	if depth >= 3 {
+		return false
+	}
+	// not in fn: every entry into fn must have done it
+	if parent := fn.Parent(); parent != nil {
+		n := 0
+		for _, in := range g9Instrs(parent) {
+			if mc, ok := in.(*ssa.MakeClosure); ok && mc.Fn == ssa.Value(fn) {
+				n++
+				if !cx.textChecked(parent, mc, nil, linkname, depth+1) {
+					return false
+				}
+			}
+		}
+		return n > 0
+	}
+	sites := p.StaticCallers(fn)
+	for _, site := range sites {
+		if !cx.textChecked(site.Parent(), site, nil, linkname, depth+1) {
+			return false
 		}
 	}
-	r.Decide(found, "C27.R2", key, p.Pos(s.call.Pos()),
-		"the archive's link text is passed through a containment resolver whose error is checked before the link is created",
-		"the link text taken from the archive is only judged lexically (or not at all) before os.Symlink: a target such as up/.. that passes through an earlier link really points outside the destination")
+	return len(sites) > 0
 }
